@@ -53,6 +53,7 @@ def new_part():
         'outcomes': Counter(),  # vacuity guard: distinct observed outcome classes
         'samples': [],
         'extra': {},            # summed integer counters, check specific
+        'sets': {},             # named sets, united over units; their sizes are reported as coverage keys 'distinct_<name>'
         'caps': [],
     }
 
@@ -71,6 +72,8 @@ def merge_parts(parts):
             tot['samples'].extend(p['samples'][:2])
         for k, v in p['extra'].items():
             tot['extra'][k] = tot['extra'].get(k, 0) + v
+        for k, v in p.get('sets', {}).items():
+            tot['sets'].setdefault(k, set()).update(v)
         tot['caps'].extend(p['caps'])
         tot.setdefault('known_hits', Counter()).update(p.get('known_hits', {}))
         tot.setdefault('fresh_counts', Counter()).update(p.get('fresh_counts', {}))
@@ -250,6 +253,7 @@ def run_check(pid, tier, seed, jobs):
         'fresh_violation_kinds': dict(tot.get('fresh_counts', {})) or {k: len(v) for k, v in by_kind.items()},
     }
     cov.update({k: v for k, v in tot['extra'].items()})
+    cov.update({f'distinct_{k}': len(v) for k, v in tot['sets'].items()})
     cov.update(ctx['coverage_extra'])
     if cov['states'] == 0:
         for k in ('states', 'transitions', 'traces_validated_against_impl'):
